@@ -163,6 +163,59 @@ Theorem C14_client_reads_every_listing_refuted :
 Proof. exact far_expiry_refuted_lemma. Qed.
 Print Assumptions C14_client_reads_every_listing_refuted.
 
+(* what admission binds: the report of a connection as serveWs builds it shows the path's topic, the
+   token's scopes and expiry, the request's user agent and forwarded address, can read / can write
+   exactly when the scopes contain "read" / "write", and Never in both directions before any traffic *)
+Theorem C14_join_binds_identity :
+  forall now id topic scopes connected expires ua xff,
+    let r := report_of_member now (member_at_join id topic scopes connected expires ua xff) in
+    r_topic r = topic /\ r_scopes r = Some scopes /\ r_connected r = connected /\ r_expiresAt r = expires
+    /\ r_userAgent r = ua /\ r_remoteAddr r = xff
+    /\ (r_canRead r = true <-> In lit_read scopes) /\ (r_canWrite r = true <-> In lit_write scopes)
+    /\ rs_last (r_tx r) = lit_Never /\ rs_last (r_rx r) = lit_Never.
+Proof. exact join_binds_identity_lemma. Qed.
+Print Assumptions C14_join_binds_identity.
+
+Example C14_join_binds_identity_witness :
+  let r := report_of_member 5 (member_at_join 9 [97] [[82; 101; 97; 100]; lit_write; []] [] [] [34] [255]) in
+  r_canRead r = false /\ r_canWrite r = true /\ r_scopes r = Some [[82; 101; 97; 100]; lit_write; []].
+Proof. vm_compute. repeat split. Qed.
+
+(* "within one reporting interval": whatever arrives on the reporter's queue (update commands, other
+   messages, nothing), at the end of every round of the repaired reporter the last report is less
+   than StatsEvery old - a round lasts at most one second plus StatsEvery, so a change is reported
+   within two such rounds (F18 repair) *)
+Theorem C14_reporter_keeps_reporting :
+  forall every rounds start,
+    Forall (fun s => 0 <= s < Z.max 1 every)%Z (silences true every start start rounds).
+Proof. exact reporter_keeps_reporting_lemma. Qed.
+Print Assumptions C14_reporter_keeps_reporting.
+
+(* the reporter as it was is refuted: messages that are not update commands, one per round, postpone
+   the report for as long as they keep coming (silence after n+1 rounds: 1300 ms each) *)
+Theorem C14_reporter_keeps_reporting_before_repair_refuted :
+  forall n, silences false 1000 0 0 (repeat (RNoise 300) (S n)) <> [] /\
+            last (silences false 1000 0 0 (repeat (RNoise 300) (S n))) 0%Z = (1300 * Z.of_nat (S n))%Z.
+Proof. exact reporter_starved_lemma. Qed.
+Print Assumptions C14_reporter_keeps_reporting_before_repair_refuted.
+
+Example C14_reporter_witness :
+  silences true 1000 0 0 [RNoise 300; RNoise 300; RUpdate 10; RTick; RNoise 999]%Z = [0; 0; 0; 0; 0]%Z /\
+  silences true 5000 0 0 [RNoise 300; RNoise 300; RNoise 300; RNoise 300; RUpdate 10]%Z = [1300; 2600; 3900; 0; 0]%Z /\
+  silences false 5000 0 0 [RNoise 300; RNoise 300; RNoise 300; RNoise 300; RNoise 300]%Z = [1300; 2600; 3900; 5200; 6500]%Z.
+Proof. vm_compute. repeat split. Qed.
+
+(* GET /status: whatever the handler writes for a listing (models.Report through the go-openapi JSON
+   producer: snake_case names, omitempty, no HTML escaping, final newline) is well-formed JSON, and
+   reading it back gives exactly the projected members with their values (strings with invalid
+   UTF-8 replaced by U+FFFD) *)
+Theorem C14_encode_rest_wf :
+  forall rs s, encode_rest rs = Some s ->
+    json_wf s = true /\
+    exists l, map_opt rest_report rs = Some l /\ parse s = Some (canon false (JArr l)).
+Proof. exact encode_rest_wf_lemma. Qed.
+Print Assumptions C14_encode_rest_wf.
+
 (* non-vacuity: a history with odd metadata (quotes, an invalid byte, U+2028, a 4-byte rune), one
    leave and one eviction; the listing encodes, is well-formed, and decodes to two reports whose
    topics and user agents are the sanitized ones *)
@@ -193,3 +246,9 @@ Proof.
   split; [vm_compute; reflexivity|].
   eexists. split; [vm_compute; reflexivity|]. split; vm_compute; reflexivity.
 Qed.
+
+Example C14_encode_rest_witness :
+  exists s, encode_rest (get_stats 4600000001000 (hub_run ex_history)) = Some s /\ json_wf s = true /\
+            encode_rest [] = Some [91; 93; 10].
+Proof. eexists. split; [vm_compute; reflexivity|]. split; vm_compute; reflexivity. Qed.
+
